@@ -99,6 +99,9 @@ C09Ok(e, pre, x, r) ==
   THEN IF rb1.v.more
        THEN \* non-final block: 2.31, not passed on, Block1 echoing the offset, size no larger than the client's
             /\ r.out = OkR(TRUE) /\ r.resp.some /\ r.resp.v.code = CODE_CONTINUE
+            \* the buffered upload is the body so far: a later final block is judged against it, so a
+            \* wrong intermediate buffer must not be adopted silently
+            /\ (r.hasPost => BufOf(r.post) = BufOf(x.st))
             /\ ack.some /\ SizeOf(ack.v.szx) <= SizeOf(rb1.v.szx)
             \* "echoing its number": pinned for budgets that admit the client's block size (C09's quantifier)
             /\ (NonPayload(req) + BlockOptionsMaxLength + SizeOf(rb1.v.szx) <= cfg.M => ack.v.num = rb1.v.num /\ ack.v.szx = rb1.v.szx)
@@ -169,6 +172,10 @@ C10ReqOk(e, pre, x, r) ==
        /\ NonPayload(req) + 1 + SizeOf(ack.v.szx) <= cfg.M
        /\ ((rb1.v.szx <= 6 /\ NonPayload(req) + 1 + SizeOf(rb1.v.szx) + 32 <= cfg.M) => ack.v.szx = rb1.v.szx)
 
+\* the client's Block2 preference of this exchange is what intercept_response must honour (C10):
+\* the remembered value is judged here, so that a wrong one is never adopted silently
+HintOk(e, x, r) == (e.op = "ireq" /\ r.hasPost /\ x.out.k = "ok" /\ r.out.k = "ok") => r.post.b2 = x.st.b2
+
 Violated(e, pre, x, r) ==
   LET hadResp == IF e.op = "ireq" THEN NewResponse(MsgOf(e.req)).some ELSE e.app.some IN
   (IF C11Ok(e, pre, r, hadResp) THEN {} ELSE {"C11"})
@@ -177,6 +184,7 @@ Violated(e, pre, x, r) ==
   \cup (IF r.out.k = "panic" \/ C08ReqOk(e, pre, x, r) THEN {} ELSE {"C08"})
   \cup (IF r.out.k = "panic" \/ RespOk(e, pre, x, r) THEN {} ELSE {"C08", "C10"})
   \cup (IF r.out.k = "panic" \/ C10ReqOk(e, pre, x, r) THEN {} ELSE {"C10"})
+  \cup (IF HintOk(e, x, r) THEN {} ELSE {"C08", "C10"})
 
 (* ---- other keys (C12 isolation, C20 retention / purge) --------------------------- *)
 OthersOk(e, k) ==
